@@ -635,6 +635,36 @@ func Run(r *mc.Run) {
 			}
 		}
 	}
+	// an upload that lists its own .dsc (what a real source .changes does), at every position of a 3-file upload, and large
+	// uploads: more referenced files than small-slice shortcuts of the standard library cover (sort.Slice switches
+	// algorithm above 12 elements, append doubles capacities), with the .dsc listed first, in the middle and last
+	dscName := ctlBase + ".dsc"
+	for _, op := range []string{"copy", "move", "remove"} {
+		for pos := 0; pos < 3; pos++ {
+			names := append([]string{}, plain[2]...)
+			names = append(names[:pos], append([]string{dscName}, names[pos:]...)...)
+			bases = append(bases, In{Kind: "changes", Op: op, Names: names, Dest: "emptydir", Event: "none"})
+		}
+	}
+	counts := []int{13, 17, 18, 22}
+	if !r.Quick() {
+		counts = []int{12, 13, 16, 17, 18, 19, 20, 21, 22, 24, 33}
+	}
+	for _, n := range counts {
+		var parts []string
+		for k := 0; k < n-1; k++ {
+			parts = append(parts, fmt.Sprintf("hello_1.0.orig-c%02d.tar.gz", k))
+		}
+		for _, op := range []string{"copy", "move"} {
+			for _, pos := range []int{0, n / 2, n - 1} {
+				names := append([]string{}, parts[:pos]...)
+				names = append(names, dscName)
+				names = append(names, parts[pos:]...)
+				bases = append(bases, In{Kind: "changes", Op: op, Names: names, Dest: "emptydir", Event: "none"})
+			}
+			bases = append(bases, In{Kind: "dsc", Op: op, Names: append(append([]string{}, parts...), "hello_1.0-1.debian.tar.xz"), Dest: "emptydir", Event: "none"})
+		}
+	}
 	// names listed only in the checksum fields (with and without a Files field): whatever the library does with them, it
 	// must stay inside the two directories
 	for _, kind := range []string{"dsc", "changes"} {
@@ -698,7 +728,7 @@ func Run(r *mc.Run) {
 				in.Event, in.At = ev, k
 				run(in)
 			}
-			if res.ops[k].Kind == "write" {
+			if res.ops[k].Kind == "write" && len(base.Names) <= 8 {
 				in := base
 				in.Event, in.At = "shortwrite", k
 				run(in)
